@@ -138,6 +138,14 @@ fn job(ctx: &Ctx, s: &dyn SuiteOps, kind: Kind, thorough: bool) -> JobOut {
                 test(&mut out, "extended".into(), format!("len:{:?}:extended", kind), &b, true);
             }
         }
+        // 2b. one byte inserted at every offset (00, 01, 02, FF and a seeded value)
+        for off in 0..=v.len() {
+            for val in [0u8, 1, 2, 0xFF, g.below(256) as u8] {
+                let mut b = v.clone();
+                b.insert(off, val);
+                test(&mut out, "inserted".into(), format!("len:{:?}:inserted", kind), &b, true);
+            }
+        }
         // 3./4. element and scalar fields
         for f in &fl {
             let Some(grp) = grp_of(s, f.ty) else {
@@ -257,7 +265,7 @@ fn job(ctx: &Ctx, s: &dyn SuiteOps, kind: Kind, thorough: bool) -> JobOut {
 
 pub fn run(ctx: &Ctx) -> Report {
     let mut rep = Report::new(
-        "for each of the 20 suites x 11 native decoders, from valid encodings harvested from a seeded honest run: truncation to every length, extension by 1..64 bytes (zero / random / own tail), all 256 values of the first and last byte of every group-element and scalar field, substitutions at every offset of those fields (quick: 12 seeded values per offset; thorough: all 255), 8 seeded substitutions per opaque field, scalar + k*order while it fits, top-bit twins for the 25519 groups; plus, through bincode and JSON, all 256 values of the first and last byte (and +order) of every key-exchange public/private key field (opaque-ke's own serde impls) and of every OPRF element and scalar field (carried as bytes by voprf's serde impls). Oracle: decode Ok => re-encode == input (and length == the fixed length). distinct = (suite, decoder, mutation class, accepted?) combinations",
+        "for each of the 20 suites x 11 native decoders, from valid encodings harvested from a seeded honest run: truncation to every length, extension by 1..64 bytes (zero / random / own tail), one byte inserted at every offset, all 256 values of the first and last byte of every group-element and scalar field, substitutions at every offset of those fields (quick: 12 seeded values per offset; thorough: all 255), 8 seeded substitutions per opaque field, scalar + k*order while it fits, top-bit twins for the 25519 groups; plus, through bincode and JSON, all 256 values of the first and last byte (and +order) of every key-exchange public/private key field (opaque-ke's own serde impls) and of every OPRF element and scalar field (carried as bytes by voprf's serde impls). Oracle: decode Ok => re-encode == input (and length == the fixed length). distinct = (suite, decoder, mutation class, accepted?) combinations",
     );
     rep.exhaustive = Some(true);
     let suites: Vec<&'static dyn SuiteOps> = SIM_SUITES.to_vec();
